@@ -386,6 +386,12 @@ def load_known(prop):
     return out
 
 
+def is_oom_text(msg):
+    """Allocation failure (address-space limit) is outside every property's quantifier: inconclusive, never a violation."""
+    m = (msg or "").lower()
+    return "out of memory" in m or "memory allocation of" in m or "cannot allocate" in m or "capacity overflow" in m
+
+
 def crash_signature(cr):
     """Stable-ish signature for a crash: signal/exit + first in-repo frame or message."""
     err = (cr.get("confirm") or {}).get("stderr") or cr.get("stderr") or ""
